@@ -128,7 +128,11 @@ class Config(object):
         # Used for handling additional types and overriding built-in types.
         # Functions are expected to have the same parameters as jsonclass dump
         # (possibility to call standard jsonclass dump function within).
-        self.serialize_handlers = serialize_handlers or {}
+        # (an empty dictionary given by the caller is kept as well: handlers
+        # might be added to it later)
+        if serialize_handlers is None:
+            serialize_handlers = {}
+        self.serialize_handlers = serialize_handlers
 
     def copy(self):
         """
